@@ -246,9 +246,13 @@ func (c *tracingHTTP2Conn) closeStreamLocked(streamID uint32, stream *http2Strea
 	if isRequest {
 		stream.requestTracer.emitUnfinished()
 		stream.builder.add(&RequestBodyEnd{Err: err})
-	} else if stream.responseTracer.builder != nil {
+	} else {
+		// Note: the response may end (e.g. via RST_STREAM) before any response
+		// headers were seen, in which case the response tracer has no builder yet.
 		stream.requestTracer.emitUnfinished()
-		stream.responseTracer.emitUnfinished()
+		if stream.responseTracer.builder != nil {
+			stream.responseTracer.emitUnfinished()
+		}
 		stream.builder.add(&ResponseBodyEnd{Err: err})
 	}
 }
